@@ -287,10 +287,18 @@ def classify(out, r, case, snap, spans):
     stores_file = any(filed_value(c.get('value')) or filed_value(c.get('default')) for c in body)
     if orphan and not stores_file:
         return out
+
+    def with_orphan(o):
+        # the leftover file of an aborted body that stored a file-backed value is the orphan finding, whatever else is wrong
+        if not orphan:
+            return o
+        only = r.get('before') is not None and all(r['before'][k_] == snap[k_] for k_ in ('items', 'len', 'counters'))
+        return [(s_, t_) for s_, t_ in o if s_ != 'unknown_file' and not (s_ == 'abort_changed_state' and only)] + \
+               [('abort_orphan_file', 'an aborted block (%s) left %d value file(s) it had stored: %s' % (','.join(body_ops), len(orphan), orphan[0]))]
     if not lost_now <= cand:
-        return out
+        return with_orphan(out)
     if not cand and not orphan and not cand_all:
-        return out
+        return with_orphan(out)
     acts = actions_with_blocks(r['calls'])
     init = make_ref(kind, setup)
 
@@ -301,7 +309,7 @@ def classify(out, r, case, snap, spans):
     # (a Deque silently drops an element whose file is gone when it is pulled, so its final length is unconstrained too)
     fin = None if cand_all else final_matches(kind, snap, ignore_values=cand)
     if linearize(acts, init, fin, tolerate=True, wild=wild) is None:
-        return out
+        return with_orphan(out)
     new = []
     # evidence that a value file really was lost: a row without file at the end, or a lookup of a candidate key that
     # missed after the rollback although the key is (still) reported present
@@ -325,7 +333,12 @@ def classify(out, r, case, snap, spans):
     only_files = r.get('before') is not None and all(r['before'][k] == snap[k] for k in ('items', 'len', 'counters'))
     rest = sigs - {'unknown_file'} - ({'abort_changed_state'} if only_files else set())
     if rest and not (evidence_lost and (cand or cand_all)):
-        return out          # something other than a leftover file is wrong and no file was lost: not D8
+        # something other than a leftover file is wrong and no file was lost: not D8; the leftover file itself is
+        # still the orphan finding (the aborted body stored a file-backed value)
+        if orphan:
+            return [(s_, t_) for s_, t_ in out if s_ != 'unknown_file' and not (s_ == 'abort_changed_state' and only_files)] + \
+                   [('abort_orphan_file', 'an aborted block (%s) left %d value file(s) it had stored: %s' % (','.join(body_ops), len(orphan), orphan[0]))]
+        return with_orphan(out)
     return new or out
 
 
